@@ -82,3 +82,20 @@ package internal
 //@   loop 3: invariant true
 //@   loop 4: modifies lsnState
 //@   loop 4: invariant true
+
+// after a (re)load the watch resumes right after the revision of the snapshot that was loaded - never from "now": an event
+// committed between the snapshot and the creation of the watch is delivered, none is lost
+//@ func (c *cluster) reload closure 0
+//@   property C13
+//@   ghost at after load#0: rv = ret
+//@   call load#0: assert arg_cli == cli && arg_key == k
+//@   call watch#0: assert arg_cli == cli && arg_key == k && arg_rev == rv
+//@ func (c *cluster) monitor closure 0
+//@   property C13
+//@   call watch#0: assert arg_cli == cli && arg_key == key && arg_rev == rev
+//@ func (c *cluster) monitor
+//@   property C13
+//@   ghost at entry: added = false
+//@   ghost at after addListener#0: added = true
+//@   call addListener#0: assert arg_key == key && arg_l == l
+//@   call load#0: assert added && arg_key == key
